@@ -164,8 +164,14 @@ impl FileMetadata {
                 smallest = file.smallest_key();
             }
 
-            if file.largest_key() < largest {
-                largest = file.largest_key()
+            // The upper bound is the maximum by user key. Consumers of the range only compare user
+            // keys; among equal user keys the earliest ordered internal key is kept.
+            let file_largest = file.largest_key();
+            if file_largest.get_user_key() > largest.get_user_key()
+                || (file_largest.get_user_key() == largest.get_user_key()
+                    && file_largest < largest)
+            {
+                largest = file_largest
             }
         }
 
@@ -201,7 +207,10 @@ impl FileMetadata {
                 smallest = files_key_range.start;
             }
 
-            if files_key_range.end < largest {
+            if files_key_range.end.get_user_key() > largest.get_user_key()
+                || (files_key_range.end.get_user_key() == largest.get_user_key()
+                    && files_key_range.end < largest)
+            {
                 largest = files_key_range.end
             }
         }
